@@ -5,9 +5,11 @@
    revised (old -> new revision number) / successful / failed / v2 renewed.  One contract may be the
    subject of SEVERAL changes of one block, in the combinations consensus allows ([block_ok]: a v1
    formation whose element carries the revisions confirmed in the same block — confirmed + revised
-   from 0; a v2 contract revised and resolved in one block; Chain.v lists, with the rule of core
+   from 0 —, possibly proven in that very block (the block at its window start); a v2 contract
+   revised and resolved in one block; Chain.v lists, with the rule of core
    behind each clause, what remains excluded); [evl1_of id b]/[evl2_of id b] are the changes of
-   contract id in block b in the order ApplyContracts (and RevertContracts) goes through them.  A
+   contract id in block b in the order ApplyContracts goes through them (RevertContracts: the same
+   order, v1 formations last).  A
    history is a list of [item]s:  [HBatch n apps] = one Store.UpdateChainState transaction that
    disconnects the n tip blocks and then connects the blocks apps (reverts first, then per applied
    block ApplyContracts and RejectContracts(height - buffer) when height >= buffer — the order of
@@ -95,11 +97,12 @@ Proof. exact inverse_v2. Qed.
 Print Assumptions c01_inverse_v2.
 
 (* ... and for the whole list of changes one block carries for one contract (any combination
-   [block_ok] admits), un-processed in the order RevertContracts uses — the same order, not the
-   reverse one *)
+   [block_ok] admits), un-processed in the order RevertContracts uses — not the reverse order: v1
+   [rorder1 l], the order of ApplyContracts with the formation last; v2 the order of ApplyContracts *)
 Theorem c01_inverse_block_v1 : forall (h : N) (l : list pev1) (x : ch1),
   cinv1 x -> shape1 l -> valid_evs1 h l x ->
-  heqv1 (rspec_evs1 l (spec_evs1 h l x)) x /\ (h_st x <> Rejected -> rspec_evs1 l (spec_evs1 h l x) = x).
+  heqv1 (rspec_evs1 (rorder1 l) (spec_evs1 h l x)) x /\
+  (h_st x <> Rejected -> rspec_evs1 (rorder1 l) (spec_evs1 h l x) = x).
 Proof. exact inverse_block_v1. Qed.
 Print Assumptions c01_inverse_block_v1.
 
@@ -136,6 +139,40 @@ Theorem c01_formation_with_folded_revision :
     s1 c' = Active /\ formed c' = true /\ confRev c' = k /\ resH c' = None.
 Proof. exact reachable_formation_with_folded_revision. Qed.
 Print Assumptions c01_formation_with_folded_revision.
+
+(* A v1 contract formed AND resolved in one block: its formation stayed unconfirmed until the block
+   at its window start and is confirmed together with a storage proof (the RHP validators bound
+   the window start against the height of the negotiation, consensus against the height of the
+   confirming block).  Formation, confirmed revision and resolution are all recorded
+   (fixes/C01-v1-created-and-resolved-same-block.patch). *)
+Theorem c01_formation_and_resolution_same_block :
+  forall (buffer : N) (s : state) (K : list block) (b : block) (id : N) (c : c1) (k : N) (e : pev1),
+  reachable buffer s K -> bvalid buffer (negof1 s) (negof2 s) K b ->
+  find1 id (cs1 s) = Some c -> evl1_of id b = [PForm1; PRev1 0 k; e] -> is_res1 e = true ->
+  exists s' c', hrun buffer [HBatch 0 [b]] (s, K) = ROk (s', b :: K) /\ J buffer s' (b :: K) /\
+    find1 id (cs1 s') = Some c' /\
+    s1 c' = res_status1 e /\ formed c' = true /\ confRev c' = k /\
+    resH c' = (match e with PSucc1 => Some (bheight b) | _ => None end).
+Proof. exact reachable_formation_and_resolution_same_block. Qed.
+Print Assumptions c01_formation_and_resolution_same_block.
+
+(* non-vacuity: formation (created element at revision 1) and storage proof of v1 contract 1 in
+   block (2,2), the block of the merged diff (created, resolved, valid): connected — successful,
+   resolution height 2, nothing active or locked in the metrics, its revenue earned —,
+   disconnected (pending, unconfirmed, revision 0), connected again, rescanned, extended, two
+   blocks disconnected; the history is well-formed. *)
+Example c01_formation_and_resolution_nonvacuous :
+  wf_hist 2 sc_demo (init, []) /\
+  sb_cols (firstn 3 sc_demo) = Some ([(Successful, true, 1, true, Some 2)], [], 2%nat) /\
+  sb_cols (firstn 4 sc_demo) = Some ([(Pending, false, 0, false, None)], [], 1%nat) /\
+  sb_cols (firstn 7 sc_demo) = Some ([(Successful, true, 1, true, Some 2)], [], 3%nat) /\
+  sb_cols sc_demo = Some ([(Pending, false, 0, false, None)], [], 1%nat) /\
+  block_of_diffs (2, 2) [mkFD 1 true true 1 None true true false] [] = sc_b2 /\
+  match hrun 2 (firstn 3 sc_demo) (init, []) with
+  | ROk (s, _) => (nAct (mets s), nSucc (mets s), mLocked (mets s), eRpc (mets s)) = (0, 1, 0, 1)
+  | _ => False
+  end.
+Proof. exact sc_demo_ok. Qed.
 
 (* non-vacuity: a well-formed history (buffer 2) whose blocks form a v1 contract with folded
    revision 3, revise-and-renew and revise-and-prove a v2 contract in one block; such blocks are
@@ -179,6 +216,14 @@ Theorem c01_v1_revision_and_proof_revert_refuted :
   connect_disconnect_refuted (mkFD 1 true false 2 (Some 2) true true false).
 Proof. exact v1_revision_and_proof_revert_refuted. Qed.
 Print Assumptions c01_v1_revision_and_proof_revert_refuted.
+
+(* Legacy: before fixes/C01-v1-created-and-resolved-same-block.patch [case created] never looked at
+   [resolved] — formation and storage proof in one block: the proof is lost, the contract stays
+   active for good. *)
+Theorem c01_formation_and_resolution_legacy_refuted :
+  legacy2_refuted [mkFD 1 true true 0 None true true false] [].
+Proof. exact legacy_formation_and_resolution_refuted. Qed.
+Print Assumptions c01_formation_and_resolution_legacy_refuted.
 
 (* A full rescan after a chain-state reset never fails and ends where it started. *)
 Theorem c01_rescan : forall (buffer : N) (s : state) (K : list block),
